@@ -157,10 +157,12 @@ def run_models(prop, tier, seed, bins, workdir):
         pass
     import mcstore
     runs.extend(mcstore.run(prop, tier, workdir))
+    import mcapalache
+    runs.extend(mcapalache.run(prop, tier, workdir))
     for r in runs:
         total["states"] += r["states"]
         total["transitions"] += r["transitions"]
-        total["models"].append({k: r[k] for k in ("name", "states", "transitions") if k in r} | {"emitted": r.get("emitted", 0)})
+        total["models"].append({k: r[k] for k in ("name", "states", "transitions", "discharged", "note") if k in r} | {"emitted": r.get("emitted", 0)})
         total["violations"].extend(r["violations"])
         total["tool_errors"].extend(r["tool_errors"])
         total["replayed"] += r["replayed"]
